@@ -356,7 +356,7 @@ func runD1(p *an.Prog, r *an.Result) {
 			}
 		})
 	}
-	r.Floor("map iteration sites", 7)
+	r.Floor("map iteration sites", 4)
 }
 
 func dedup(xs []string) []string {
